@@ -1,4 +1,4 @@
-CONSTANTS Classes = {"ok", "notjson", "nameless"}  HealthClasses = {}  Formats = {}  Fields = {}  Mutations = 0  ValueClasses = {}
+CONSTANTS Classes = {"ok", "notjson", "nameless"}  HealthClasses = {}  Formats = {}  Fields = {}  FleetClasses = {}  Mutations = 0  ValueClasses = {}
 SPECIFICATION Spec
 INVARIANT Consistent
 CHECK_DEADLOCK FALSE
